@@ -359,6 +359,7 @@ pub fn spec() -> PropSpec {
             PropCheck::new("deserializer-valid", |_| deser_case(false), 40_000, 1_000_000, eval),
             PropCheck::new("deserializer-mutated", |_| deser_case(true), 50_000, 1_500_000, eval),
             PropCheck::new("sessions", |_| session_case(), 15_000, 500_000, eval_session),
+            crate::targets::corpus_check(&["split"]),
         ],
     }
 }
